@@ -1078,7 +1078,7 @@ func syncMeta(c *Ctx) error {
 	}
 	n := 220
 	if c.Thorough() {
-		n = 4000
+		n = 3000
 	}
 	c.Stats.Rule = "one case = one metadata-only transfer (source tree, selector table, prior destination); non-trivial = some regular file is selected and some is not; distinct by (tree, selector, destination)"
 	o := genOpts{MaxEntries: 25, Special: true, Xattrs: true, Links: true, BigFiles: false}
@@ -1086,7 +1086,7 @@ func syncMeta(c *Ctx) error {
 		t := RandomTree(c.Rand, o)
 		origin := "random"
 		switch {
-		case (c.Thorough() && i%7 == 3) || i%40 == 3:
+		case i%40 == 3:
 			// listings larger than several 32 KiB buffer chunks: many entries with long names
 			for k := 0; k < 500+c.Rand.Intn(300); k++ {
 				e := newFile(c.Rand, genOpts{})
